@@ -111,7 +111,6 @@ func Start(prop string) *Run {
 			r.trace = f
 		}
 	}
-	debug.SetMaxStack(256 << 20)
 	go r.watchdog()
 	return r
 }
